@@ -1,7 +1,7 @@
 import KoordVerif.Model.C17
 /-
 C17 ext3 — the ARBITRATOR's writes to a job's phase.
-  pkg/descheduler/controllers/migration/arbitrator/handler.go     Create (adds EVERY job, whatever its phase), Update
+  pkg/descheduler/controllers/migration/arbitrator/handler.go     Create (skips Succeeded / Failed / Aborted jobs since 2a5d178), Update
   pkg/descheduler/controllers/migration/arbitrator/arbitrator.go  AddPodMigrationJob (deep copy), doOnceArbitrate, filtering,
                                                                   updateFailedJob (Phase=Failed, no look at the current phase),
                                                                   updatePassedJob
@@ -52,11 +52,12 @@ inductive AOp where
   | add | set (p : Nat) | pod (b : Bool) | round
 deriving DecidableEq, Repr
 
-/-- `guarded` = the candidate repair: the Create handler skips jobs that are already Succeeded / Failed / Aborted (the
-    test the Update handler makes).
+/-- `guarded = true` = the shipped Create handler (fix 2a5d178): it skips jobs that are already Succeeded / Failed /
+    Aborted (the test the Update handler makes); `false` = the handler before the fix, which added every job.
     `set` is the controller's write: never on a terminal job (Props: terminal_forever). -/
 def arbStep (guarded : Bool) (s : ArbS) : AOp → ArbS
-  | .add => if guarded && finPh s.phase then s else arbAdd s
+  -- a controller restart: a FRESH arbitrator (empty waitingCollection), then the Create event for the existing job
+  | .add => if guarded && finPh s.phase then { s with waiting := none } else arbAdd s
   | .set p => if termPh s.phase then s else arbSet s p
   | .pod b => { s with pod := b }
   | .round => arbRound s
